@@ -178,6 +178,20 @@ func runC03(tier string, seed uint64) {
 			for _, k := range keys {
 				s.Put(b, k, []byte("body-of-" + k)[:5+len(k)], nil)
 			}
+			var nested []string
+			if fs && len(keys) > 0 && si%2 == 0 {
+				// uploads one and two levels below a stored object: a file system cannot hold them and the
+				// backend refuses them (the model is not told); whatever it answers, the object above stays
+				// listed, and an upload it did accept is a key like any other
+				top := keys[len(keys)-1]
+				for _, nk := range []string{top + "/zz/y", top + "/zz"} {
+					body := []byte("nested")
+					if r := do(s.h, Req{Method: "PUT", Path: "/" + pathEscape(b) + "/" + pathEscape(nk), Body: body}); r.Status == 200 {
+						s.emitPut(b, nk, body, r)
+						nested = append(nested, nk)
+					}
+				}
+			}
 			if !ghost && len(keys) > 0 {
 				// keys that were stored and deleted again leave nothing behind, whatever they are called
 				// (on the memory backend the same is done with delete markers, below)
@@ -194,6 +208,14 @@ func runC03(tier string, seed uint64) {
 				for _, g := range []string{keys[0] + "g", "g/h", "gbh", keys[0] + "/g"} {
 					s.Put(b, g, []byte("ghost"), nil)
 					s.Delete(b, g)
+				}
+				if si%3 == 0 {
+					// deleted once more while versioning is suspended (alone and in a multi-object delete): a key
+					// that is hidden stays hidden
+					s.SetVersioning(b, false)
+					s.Delete(b, "g/h")
+					s.MultiDelete(b, []KV{{K: keys[0] + "g"}})
+					s.SetVersioning(b, true)
 				}
 			}
 			var prefixes []string
@@ -224,6 +246,9 @@ func runC03(tier string, seed uint64) {
 				}
 			}
 			// delete everything again (mem: versioned, so remove every version for a clean slate)
+			for _, k := range nested {
+				s.Delete(b, k)
+			}
 			for _, k := range keys {
 				s.Delete(b, k)
 			}
@@ -267,10 +292,16 @@ func (s *Sess) walk(b, prefix, delim string, maxKeys int, v2 bool, nKeys int) {
 // repeats that parameter next to the continuation token on every later page
 func (s *Sess) walkFrom(b, prefix, delim string, maxKeys int, v2 bool, nKeys int, sa string) {
 	emit(s.prop, "WB", fmt.Sprint(maxKeys))
+	s.walks++
 	marker, has := "", false
 	terminated := false
 	for page := 0; page < nKeys+6; page++ {
 		q := ListReq{Bucket: b, Prefix: prefix, Delim: delim, Marker: marker, HasMarker: has, MaxKeys: maxKeys, V2: v2}
+		if page == 0 && sa == "" && s.walks%3 == 2 {
+			// a client loop that always sends its marker variable: the parameter is present and empty on
+			// the first page (marker= / start-after= / continuation-token=), which is the same as absent
+			q.HasMarker, q.StartAfter = true, v2 && s.walks%2 == 0
+		}
 		if sa != "" {
 			if !has {
 				q.Marker, q.HasMarker, q.StartAfter = sa, true, true
